@@ -611,7 +611,7 @@ impl Gen<'_> {
     }
 
     fn count(&mut self) -> usize {
-        let n = match self.rng.weighted(&[12, 45, 30, 10, 3]) {
+        let n = match self.rng.weighted(&[8, 30, 35, 19, 8]) {
             0 => 0,
             1 => self.rng.range(1, 3),
             2 => self.rng.range(3, 8),
@@ -1033,7 +1033,7 @@ impl Check for C33 {
         "C33"
     }
     fn cases(&self, tier: Tier) -> u64 {
-        tier.pick(640, 8_000)
+        tier.pick(480, 6_000)
     }
     fn budget_s(&self, tier: Tier) -> u64 {
         // generous: the first case of every worker may have to wait for the
@@ -1041,7 +1041,7 @@ impl Check for C33 {
         tier.pick(240, 600)
     }
     fn min_nontrivial(&self, tier: Tier) -> u64 {
-        tier.pick(200, 2000)
+        tier.pick(150, 1500)
     }
     fn in_panic_watch(&self) -> bool {
         false
